@@ -1,6 +1,7 @@
 import Femio.Model.Attr
 import Femio.Model.Core
 import Femio.Lemmas.AttrProps
+import Femio.Lemmas.AttrUpdate
 import Femio.Lemmas.CoreProps
 
 /-! C08 — an attribute is one id-keyed table whichever way it is accessed.  Property theorems.
@@ -85,6 +86,121 @@ theorem C08_filter_with_ids (s : State) (h : AInv s) (hn : s.ids.Nodup) (ks : Li
     have hv := (C08_views_agree s h hn k hk).1
     simp only [filterWithIds] at ht ⊢
     simp [List.filterMap_cons, List.getElem?_eq_getElem hk, List.mapM_cons, hv, ht]
+
+/-! ### what an update does, stated on the id-keyed table -/
+
+theorem zip_keys (ids : List Nat) (rows : List Row) (h : ids.length = rows.length) : (ids.zip rows).map Prod.fst = ids := by
+  induction ids generalizing rows with
+  | nil => simp
+  | cons a t ih =>
+    cases rows with
+    | nil => simp at h
+    | cons r rs => simp [ih rs (by simpa using h)]
+
+/-- **C08_update_spec**: `update(ids', rows, allow_overwrite=True)` on a consistent attribute with distinct ids.
+Afterwards, looked up by id: an id that was present and is updated holds the new row cell-wise where the new cell
+is not NaN and the old cell otherwise (the pandas `combine_first` rule); an id that was present and is not
+updated keeps its row; a new id holds the new row; no other id appears.  The ids stay distinct, and (unless the
+update names exactly the stored ids in stored order) they are in ascending order. -/
+theorem C08_update_spec (cfg : Cfg) (s t : State) (ids' : List Nat) (rows : List Row)
+    (h : updateOverwrite cfg s ids' rows = .ok t) (hinv : AInv s) (hn : s.ids.Nodup) (hn' : ids'.Nodup) :
+    (∀ i, locView t i =
+      match lookupRow s.ids s.frame i, lookupRow ids' rows i with
+      | some r, some n => some (combineRow n r)
+      | some r, none => some r
+      | none, some n => some n
+      | none, none => none) ∧
+    t.ids.Nodup ∧ (ids' ≠ s.ids → t.ids.Pairwise (· ≤ ·)) ∧ (∀ i, i ∈ t.ids ↔ i ∈ s.ids ∨ i ∈ ids') := by
+  obtain ⟨hfd, hlen, _⟩ := hinv
+  unfold updateOverwrite at h
+  split at h
+  · cases h
+  · rename_i hl
+    have hl' : ids'.length = rows.length := by simpa using hl
+    -- the merged association list
+    dsimp only at h
+    obtain ⟨A, hA⟩ : ∃ A : List (Nat × Row), A = mergedOld ids' rows (s.ids.zip s.frame) := ⟨_, rfl⟩
+    obtain ⟨B, hB⟩ : ∃ B : List (Nat × Row), B = newOnly s.ids (ids'.zip rows) := ⟨_, rfl⟩
+    rw [← hA, ← hB] at h
+    have hkeysA : A.map Prod.fst = s.ids := by
+      simp only [hA, mergedOld, List.map_map]
+      rw [show (Prod.fst ∘ fun (p : Nat × Row) => (p.1, mergeCell ids' rows p.1 p.2)) = Prod.fst from rfl]
+      exact zip_keys s.ids s.frame hlen
+    have hkeysB_sub : ∀ i ∈ B.map Prod.fst, i ∈ ids' ∧ i ∉ s.ids := by
+      intro i hi
+      obtain ⟨p, hp, rfl⟩ := List.mem_map.mp hi
+      rw [hB, newOnly] at hp
+      have hp' := List.mem_filter.mp hp
+      refine ⟨?_, by simpa using hp'.2⟩
+      have := List.mem_map_of_mem (f := Prod.fst) hp'.1
+      rwa [zip_keys ids' rows hl'] at this
+    have hkeysB_nd : (B.map Prod.fst).Nodup := by
+      have : (B.map Prod.fst).Sublist ((ids'.zip rows).map Prod.fst) := by
+        rw [hB, newOnly]; exact List.filter_sublist.map _
+      rw [zip_keys ids' rows hl'] at this
+      exact this.nodup hn'
+    have hkeys_nd : ((A ++ B).map Prod.fst).Nodup := by
+      rw [List.map_append, hkeysA]
+      exact List.Nodup.append hn hkeysB_nd (fun i hi hi' => (hkeysB_sub i hi').2 hi)
+    -- lookups in the merged list
+    have hlookA : ∀ i, assocLookup i A = (lookupRow s.ids s.frame i).map (mergeCell ids' rows i) := by
+      intro i; rw [hA, mergedOld, assocLookup_map, ← lookupRow_zip]
+    have hlookB : ∀ i, i ∉ s.ids → assocLookup i B = lookupRow ids' rows i := by
+      intro i hi
+      rw [hB, newOnly, assocLookup_filter _ (fun i => !s.ids.contains i) i (by simpa using hi), ← lookupRow_zip]
+    have hlookM : ∀ i, assocLookup i (A ++ B) =
+        match lookupRow s.ids s.frame i, lookupRow ids' rows i with
+        | some r, some n => some (combineRow n r)
+        | some r, none => some r
+        | none, some n => some n
+        | none, none => none := by
+      intro i
+      rw [assocLookup_append, hlookA]
+      by_cases hi : i ∈ s.ids
+      · have : i ∈ (s.ids.zip s.frame).map Prod.fst := by rw [zip_keys _ _ hlen]; exact hi
+        obtain ⟨r, hr⟩ := assocLookup_some_of_mem _ i this
+        rw [lookupRow_zip, hr]
+        cases hl2 : lookupRow ids' rows i <;> simp [mergeCell, hl2]
+      · have : assocLookup i (s.ids.zip s.frame) = none :=
+          assocLookup_none_of_not_mem _ i (by rw [zip_keys _ _ hlen]; exact hi)
+        rw [lookupRow_zip, this, hlookB i hi]
+        cases lookupRow ids' rows i <;> simp
+    cases h
+    by_cases hsame : ids' = s.ids
+    · simp only [hsame, if_true] at *
+      refine ⟨?_, hkeys_nd, fun h => absurd rfl h, ?_⟩
+      · intro i; unfold locView; simp only; rw [assocLookup_unzip]; exact hlookM i
+      · intro i
+        rw [List.map_append, hkeysA]
+        constructor
+        · intro hi; rcases List.mem_append.mp hi with h | h
+          · exact Or.inl h
+          · exact Or.inl ((hkeysB_sub i h).1)
+        · rintro (h | h) <;> exact List.mem_append_left _ h
+    · simp only [hsame, if_false]
+      refine ⟨?_, ?_, fun _ => sortById_sorted _, ?_⟩
+      · intro i; unfold locView; simp only
+        rw [assocLookup_unzip, assocLookup_sortById _ hkeys_nd]; exact hlookM i
+      · exact (sortById_keys_perm _).nodup_iff.mpr hkeys_nd
+      · intro i
+        rw [(sortById_keys_perm (A ++ B)).mem_iff, List.map_append, hkeysA]
+        constructor
+        · intro hi; rcases List.mem_append.mp hi with h | h
+          · exact Or.inl h
+          · exact Or.inr ((hkeysB_sub i h).1)
+        · rintro (h | h)
+          · exact List.mem_append_left _ h
+          · by_cases hs : i ∈ s.ids
+            · exact List.mem_append_left _ hs
+            · apply List.mem_append_right
+              have : i ∈ (ids'.zip rows).map Prod.fst := by rw [zip_keys _ _ hl']; exact h
+              obtain ⟨p, hp, hpi⟩ := List.mem_map.mp this
+              rw [hB, newOnly]
+              exact List.mem_map.mpr ⟨p, List.mem_filter.mpr ⟨hp, by simpa [hpi] using hs⟩, hpi⟩
+
+/-- non-vacuity: unsorted ids, one updated id with a NaN cell, one new id -/
+example : (updateOverwrite Cfg.fixed s0 [9, 4] [[none], [some 7]]).map (fun t => (t.ids, t.frame))
+    = .ok ([3, 4, 5, 9], [[some 3], [some 7], [some 1], [some 5]]) := by decide
 
 /-! ### mixed-type element collections (`FEMElementalAttribute._update_self`) -/
 
